@@ -3,27 +3,27 @@
 import json, subprocess, sys
 CHECKS = {
  # id: (level, technique, level text, level note, design_ref)
- "C01": ("exploration", "model-based stateful property testing (proptest histories vs reference model, wire level)",
-         "random symbolic command histories over small key pools are executed through decode->handler->encode and every response is judged by an independent sequential reference model; the other keys are probed after every command. Exploration of a sampled history space with shrinking, no proof.",
+ "C01": ("exploration", "model-based stateful property testing (proptest histories vs reference model, wire level in-process and command by command over loopback TCP)",
+         "random symbolic command histories over small key pools are executed through decode->handler->encode and every response is judged by an independent sequential reference model; the other keys are probed after every command; a twelfth as many further histories run through a real socket and the server's connection handling under the same injected clock. Exploration of a sampled history space with shrinking, no proof.",
          "harness-owned clock; single client; TTL <= 30 days; <= 60 ops and <= 5 keys per history; the model's open points (DESIGN.md 4.3) are accepted both ways", "6/C01"),
  "C02": ("exploration", "model-based stateful property testing with symbolic CAS selectors",
          "histories whose mutations draw CAS tokens symbolically (current, stale, current+1, arbitrary, max) judged by the model's CAS rule, per-lifetime uniqueness and ack=retrieved; includes the explicit stale-writer client scenario.",
          "uniqueness is checked per key lifetime; lifetimes begun by a non-zero CAS on an absent key are exempt as the property says", "6/C02"),
- "C05": ("exploration", "model-based stateful property testing with a harness-owned clock and boundary clock advances",
-         "histories with TTL stores at arbitrary clock values and advances to expiry-1/0/+1; the model keeps must-be-alive / must-be-dead bounds per item and accepts either answer only between them.",
+ "C05": ("exploration", "model-based stateful property testing with a harness-owned clock and boundary clock advances (in-process, over loopback TCP, and under real memory pressure with an eviction-tolerant model)",
+         "histories with TTL stores at arbitrary clock values and advances to expiry-1/0/+1; the model keeps must-be-alive / must-be-dead bounds per item and accepts either answer only between them; a quarter as many histories run under RandomPolicy with a 400-1500 byte limit, where any miss is excused and everything returned is judged.",
          "time is the injected Timer; real-time ticking is C20's business", "6/C05"),
  "C06": ("exploration", "model-based stateful property testing over key-state classes",
          "add/replace/append/prepend on absent, present, expired, deleted and flushed keys with empty/binary/limit-reaching operands, each followed by a probe of the key.", "as C01", "6/C06"),
  "C07": ("exploration", "model-based stateful property testing over the numeric value family and extreme deltas",
          "incr/decr over canonical, edge and malformed numeric texts with deltas aimed at the exact wrap and zero points; exact 64-bit results, 8-byte body, stored text and flags are checked; arithmetic is compiled with overflow checks.", "numeric syntax open point 5 (leading '+', over-long zero padding) accepted both ways", "6/C07"),
- "C08": ("exploration", "model-based stateful property testing with multi-key probes and flush deadlines",
+ "C08": ("exploration", "model-based stateful property testing with multi-key probes and flush deadlines (in-process, over loopback TCP, and under real memory pressure)",
          "stores/deletes/flushes (immediate, delayed) over up to 6 keys with advances around the flush deadline; all keys probed after every command.", "as C01", "6/C08"),
  "C11": ("exploration", "independent response parser over generated histories (round-trip/validity oracle)",
          "every response emitted during generated histories (all opcodes, all outcomes) is re-parsed by an independent parser and checked against its request.", "the protocol status table and body layout are taken from the memcached binary protocol document", "6/C11"),
  "C03": ("exploration", "schedule enumeration (harness-owned baton scheduler at the Cache trait boundary) + linearizability search against the reference model; OS-thread stress with invariant oracles",
          "small concurrent programs (2-3 clients, 1-2 commands) on one key from every initial state are executed under every interleaving of the store's trait-level steps (stateless DFS, exhaustive up to the leaf cap); each execution must be explained by some sequential order consistent with program and real-time order.",
          "interleavings inside one MemoryStore method are out of the scheduler's reach (OS-scheduled stress only); DashMap shard locking trusted", "6/C03"),
- "C04": ("exploration", "schedule enumeration + linearizability search (read-modify-write commands); OS-thread and multi-listener TCP stress with sum/multiset invariants",
+ "C04": ("exploration", "schedule enumeration + linearizability search (read-modify-write commands); OS-thread and multi-listener TCP stress with sum/multiset invariants, with the map's shards kept write-locked by commands on other keys",
          "2-3 clients with one RMW or plain command each, every initial state, every interleaving at trait-call granularity; blocked clients (key locks) are detected through the kernel thread state so that lock-based implementations are schedulable.",
          "as C03", "6/C04"),
  "C09": ("exploration", "differential testing over read segmentations + independent framer (proptest streams, exhaustive cut plans, socket phase, libFuzzer campaign in the thorough tier)",
@@ -47,11 +47,11 @@ CHECKS = {
  "C12": ("exploration", "model-based pipelines over loopback TCP with enforced segmentation; per-connection reference model; back-pressure and busy-connection scenarios",
          "generated pipelines (all opcodes loud/quiet, unimplemented opcodes, quit/quitq anywhere) over a real socket to an in-process server; responses must be in request order, present exactly when the model says so, and nothing after quit may be answered or executed (store read through an in-process side channel).",
          "loopback, in-process server (MemcacheTcpServer::run on its own runtime); completion by sentinel noop or EOF", "6/C12"),
- "C13": ("fault_enumeration", "enumeration of (limit x body size x opcode x pipeline position x split of the oversized frame) on loopback TCP",
-         "a finite grid of limits, body sizes, opcodes, positions and first-read splits is enumerated completely (quick: fixed sub-grid); each point is one connection judged by response/status/opaque, behaviour of neighbouring requests and store content.",
+ "C13": ("fault_enumeration", "enumeration of (limit x body size x opcode x pipeline position x split of the oversized frame x client pause) on loopback TCP; model-based histories with limit-sized and oversized values",
+         "a finite grid of limits, body sizes, opcodes, positions and first-read splits is enumerated completely (quick: fixed sub-grid); each point is one connection judged by response/status/opaque, behaviour of neighbouring requests and store content; bodies announced as 2^31-1 .. 2^32-1 bytes carry complete set requests that must not be executed; generated histories are judged for the size clauses only.",
          "the part of a large body buffered at header time is bounded by the server's 4 KiB read buffer; bodies over 8 MiB are only announced", "6/C13"),
  "C17": ("fault_enumeration", "stateful generation of connection lifecycles with a slot model and kernel-queue evidence",
-         "generated sequences of opens and endings (9 ending kinds + idle timeout) for limits 1..4 and two runtime flavours; after every step exactly min(limit, open) connections answer and the others provably sit unread in the server's receive queue.",
+         "generated sequences of opens and endings (9 ending kinds, clients that stay connected after a protocol error or after quit, idle timeout) for limits 1..4 and two runtime flavours; after every step exactly min(limit, open) connections answer and the others provably sit unread in the server's receive queue.",
          "which waiting connection is served next is not asserted; grace periods can only miss", "6/C17"),
  "C18": ("fault_enumeration", "enumeration of every cut offset x fault kind with a differential (fault-free in-process) oracle and an observer connection",
          "for generated pipelines every byte offset is combined with 7 fault kinds; store content must equal that of exactly the complete requests (orderly) or of some prefix of them (resets), the observer connection follows the reference model, and the server keeps serving.",
